@@ -44,6 +44,12 @@ for m in muts:
 sh("cd /verif && git status --porcelain -uall replays | awk '/^\\?\\?/{print $2}' | xargs -r rm -f")
 assert sh('git -C /repo status --porcelain').stdout.strip()=='' , 'repo dirty after run'
 missed=[r for r in res if 'MISSED' in str(r[2]) or 'FALSE-ALARM' in str(r[2]) or 'SKIP' in str(r[1])]
-json.dump([{'mutant':r[0],'check':r[1],'outcome':r[2],'seconds':(r[3] if len(r)>3 and isinstance(r[3],(int,float)) else None),'first_report':(r[4] if len(r)>4 else (r[3] if len(r)>3 and isinstance(r[3],str) else ''))} for r in res if len(r)>2],open('/verif/mutants/results.json','w'),indent=1)
+new=[{'mutant':r[0],'check':r[1],'outcome':r[2],'seconds':(r[3] if len(r)>3 and isinstance(r[3],(int,float)) else None),'first_report':(r[4] if len(r)>4 else (r[3] if len(r)>3 and isinstance(r[3],str) else ''))} for r in res if len(r)>2]
+try:
+    old=json.load(open('/verif/mutants/results.json'))
+except Exception:
+    old=[]
+keys={(n['mutant'],n['check']) for n in new}
+json.dump([o for o in old if (o['mutant'],o['check']) not in keys]+new,open('/verif/mutants/results.json','w'),indent=1)
 print('\nSUMMARY: %d results, %d problems'%(len(res),len(missed)))
 for r in missed: print('  ',r[:3])
